@@ -457,3 +457,87 @@ Qed.
 (* what a transmission writes is the current value of the respective sync *)
 Lemma transmitted_value s pn v : fst (ivs_transmit s pn) = Some v -> v = latest s.
 Proof. destruct (transmit_latest s pn) as [_ [H|H]]; rewrite H; intro E; inversion E; reflexivity. Qed.
+
+(* ---------- reset_rejects_exactly: RESET_STREAM on a stream that is receiving or stopping ---------- *)
+
+(* what the model rejects a RESET_STREAM(final size) for.  Note what is missing: "final size
+   below data already received" (RFC 9000 4.5 / 20.1) -- see reset_below_received_accepted. *)
+Definition reset_violates (s : rs) (c : cfc) (size : N) : Prop :=
+  match rst s, fin_ s with
+  | Receiving, Some total => size <> total
+  | _, _ => sat_add (rel s) (swin s) < size
+            \/ sat_add (ccons c) (cwin c) < cacq c + (size - acq s)
+  end.
+
+Lemma reset_rejects_exactly s c size :
+  SInv s -> CInv c -> (rst s = Receiving \/ exists a b d, rst s = Stopping a b d) ->
+  match init_reset s c (Some size) with
+  | inr code => reset_violates s c size
+                /\ (code = 6 <-> (rst s = Receiving /\ exists total, fin_ s = Some total))
+                /\ (code = 3 \/ code = 6)
+  | inl (s', c') => ~ reset_violates s c size /\ SInv s' /\ CInv c'
+  end.
+Proof.
+  intros HS HC Hst. pose proof HS as [H1 [HW H2]]. pose proof HC as [HC1 HC2].
+  assert (HACQ : forall s0, s0 = s -> fin_ s = None \/ rst s <> Receiving ->
+            match (match acquire_up_to s c size with
+                   | inr code => inr code
+                   | inl (s1, c1) => inl (do_reset s1 c1)
+                   end) with
+            | inr code => (sat_add (rel s) (swin s) < size \/ sat_add (ccons c) (cwin c) < cacq c + (size - acq s))
+                          /\ code = 3
+            | inl (s', c') => ~ (sat_add (rel s) (swin s) < size \/ sat_add (ccons c) (cwin c) < cacq c + (size - acq s))
+                              /\ SInv s' /\ CInv c'
+            end).
+  { intros s0 _ _. destruct (acquire_up_to s c size) as [[s1 c1]|code] eqn:EA.
+    - pose proof (acquire_inv _ _ _ _ _ HS HC EA) as (HS1 & HCx & _ & _ & _ & _ & _ & _ & _ & _ & _ & _ & _ & A12).
+      pose proof (do_reset_inv s1 c1 HS1 HCx) as R. destruct (do_reset s1 c1) as [sa ca].
+      split; [|exact R]. intros [Hx|Hx].
+      + rewrite <- H1 in Hx. lia.
+      + rewrite <- HC1 in Hx. unfold acquire_up_to in EA.
+        destruct (latest (rsync s) <? size); [discriminate|].
+        destruct (0 <? size - acq s) eqn:E2.
+        * unfold cfc_acquire in EA. destruct (latest (csync c) - cacq c <? size - acq s) eqn:E3; [discriminate|].
+          apply N.ltb_ge in E3. lia.
+        * apply N.ltb_ge in E2. lia.
+    - unfold acquire_up_to in EA. destruct (latest (rsync s) <? size) eqn:E1.
+      + inversion EA. split; [|reflexivity]. left. apply N.ltb_lt in E1. rewrite <- H1. exact E1.
+      + destruct (0 <? size - acq s) eqn:E2; [|discriminate]. unfold cfc_acquire in EA.
+        destruct (latest (csync c) - cacq c <? size - acq s) eqn:E3; [|discriminate].
+        inversion EA. split; [|reflexivity]. right. apply N.ltb_lt in E3. rewrite <- HC1. lia. }
+  unfold init_reset, reset_violates.
+  destruct Hst as [HR|(a & b & d & HR)]; rewrite HR.
+  - destruct (fin_ s) as [total|] eqn:EF.
+    + destruct (size =? total) eqn:E; cbn.
+      * apply N.eqb_eq in E.
+        destruct (contig (cons s) (segs s) =? total).
+        -- split; [lia|split; assumption].
+        -- pose proof (do_reset_inv s c HS HC) as R. destruct (do_reset s c) as [sa ca]. split; [lia|exact R].
+      * apply N.eqb_neq in E. split; [exact E|]. split; [|right; reflexivity].
+        split; [intros _; split; [reflexivity|exists total; reflexivity]|reflexivity].
+    + specialize (HACQ s eq_refl (or_introl eq_refl)).
+      destruct (match acquire_up_to s c size with inr code => inr code | inl (s1, c1) => inl (do_reset s1 c1) end)
+        as [[s' c']|code]; [exact HACQ|].
+      destruct HACQ as [Hv Hc]. subst code. split; [exact Hv|]. split; [|left; reflexivity].
+      split; [discriminate|]. intros [_ [total Ht]]. discriminate.
+  - assert (Hn : rst s <> Receiving) by (rewrite HR; discriminate).
+    specialize (HACQ s eq_refl (or_intror Hn)).
+    destruct (match acquire_up_to s c size with inr code => inr code | inl (s1, c1) => inl (do_reset s1 c1) end)
+      as [[s' c']|code]; [exact HACQ|].
+    destruct HACQ as [Hv Hc]. subst code. split; [exact Hv|]. split; [|left; reflexivity].
+    split; [discriminate|]. intros [Hx _]. discriminate.
+Qed.
+
+(* the deviation from RFC 9000 4.5 / 20.1, at model level: with no FIN seen, a RESET_STREAM whose
+   final size is below the highest offset already received is accepted *)
+Lemma reset_below_received_accepted :
+  exists s c size, SInv s /\ CInv c /\ rst s = Receiving /\ size < maxrecv s
+                   /\ exists s' c', init_reset s c (Some size) = inl (s', c').
+Proof.
+  pose (m := exec (minit 100 100 200) [OStream 0 0 10 false]).
+  exists (get m 0), (conn m), 5.
+  pose proof (exec_inv [OStream 0 0 10 false] _ (minit_inv 100 100 200 ltac:(unfold u32_max; lia) ltac:(unfold u32_max; lia) ltac:(unfold u32_max; lia))) as HM.
+  fold m in HM. split; [apply get_inv; exact HM|]. split; [apply HM|].
+  split; [vm_compute; reflexivity|]. split; [vm_compute; reflexivity|].
+  vm_compute. eexists. eexists. reflexivity.
+Qed.
